@@ -1,5 +1,5 @@
 (* The `Parser` struct of crates/apollo-parser/src/parser/mod.rs and its primitives, as a state monad over
-   `poutcome`.  The lexer the parser owns is the list of items it has not pulled yet (the stream is a pure
+   `outcome`.  The lexer the parser owns is the list of items it has not pulled yet (the stream is a pure
    function of the input, Lex/); `self.lexer.clone()` look-ahead is a pure look-ahead on that list. *)
 From ApolloVerif Require Import Base.Chars Lex.Item Parse.Outcome Parse.Builder Parse.Limits.
 
@@ -26,7 +26,7 @@ Record pstate := {
   ps_accept : bool   (* accept_errors *);
   ps_pulled : N   (* number of items pulled from self.lexer = lexer.limit_tracker.high *);
   ps_dbg : bool   (* debug_assertions on? (constant during a run) *);
-  ps_dropped : list ptoken   (* GHOST (no behaviour depends on it): tokens popped and never given to the pbuilder, REVERSED *)
+  ps_dropped : list ptoken   (* GHOST (no behaviour depends on it): tokens popped and never given to the builder, REVERSED *)
 }.
 
 Definition ps_set_items v s := {| ps_items := v; ps_cur := ps_cur s; ps_builder := ps_builder s; ps_pending := ps_pending s; ps_errors := ps_errors s; ps_rec := ps_rec s; ps_accept := ps_accept s; ps_pulled := ps_pulled s; ps_dbg := ps_dbg s; ps_dropped := ps_dropped s |}.
@@ -94,9 +94,9 @@ Definition poptoken_eqb (a b : option ptoken) : bool :=
   | _, _ => false
   end.
 
-(* ---- p_next_token: pull items until a token; lexer errors are recorded on the way ---- *)
+(* ---- next_token: pull items until a token; lexer errors are recorded on the way ---- *)
 
-(* the effect of one IErr(p_err) item in next_token's loop: the data is queued for the ptree; the error is
+(* the effect of one Err(err) item in next_token's loop: the data is queued for the tree; the error is
    pushed only while accept_errors holds; a limit error clears accept_errors afterwards *)
 Definition p_lexer_error_effect (c : eclass) (data : str) (index : N) (s : pstate) : pstate :=
   let s1 := match data with [] => s | _ => ps_set_pending (ps_pending s ++ [PendError data]) s end in
@@ -115,7 +115,7 @@ Fixpoint p_next_token_loop (items : list item) (s : pstate) : option ptoken * ps
 
 Definition p_next_token : PM (option ptoken) := fun s => POk (p_next_token_loop (ps_items s) s).
 
-(* p_peek_token: fill current_token if empty, return it *)
+(* peek_token: fill current_token if empty, return it *)
 Definition p_peek_token : PM (option ptoken) :=
   fun s => match ps_cur s with
            | Some t => POk (Some t, s)
@@ -130,8 +130,8 @@ Definition p_peek_data : PM (option str) := o <- p_peek_token ;; p_ret (option_m
 Definition p_at (k : tkind) : PM bool :=
   o <- p_peek ;; p_ret (match o with Some t => tkind_eqb t k | None => false end).
 
-(* p_peek_n_inner(n): current_token, then a CLONE of the lexer; errors dropped; TkWhitespace, TkComment and
-   TkComma filtered out; .nth(n - 1).  Pure. *)
+(* peek_n_inner(n): current_token, then a CLONE of the lexer; errors dropped; Whitespace, Comment and
+   Comma filtered out; .nth(n - 1).  Pure. *)
 Fixpoint p_nth_significant (n : nat) (l : list item) : option ptoken :=
   match l with
   | [] => None
@@ -158,7 +158,7 @@ Definition p_peek_token_n (n : nat) : PM (option ptoken) := p_peek_n_inner n.
 Definition p_peek_n (n : nat) : PM (option tkind) := o <- p_peek_n_inner n ;; p_ret (option_map tok_kind o).
 Definition p_peek_data_n (n : nat) : PM (option str) := o <- p_peek_token_n n ;; p_ret (option_map tok_data o).
 
-(* p_pop: take current_token, else pull one; panics p_when the lexer is finished *)
+(* pop: take current_token, else pull one; panics when the lexer is finished *)
 Definition p_pop : PM ptoken :=
   fun s => match ps_cur s with
            | Some t => POk (t, ps_set_cur None s)
@@ -168,13 +168,13 @@ Definition p_pop : PM ptoken :=
                      end
            end.
 
-(* p_push_token *)
+(* push_token *)
 Definition p_push_token (k : skind) (t : ptoken) : PM unit :=
   p_modify (fun s => ps_set_builder (pb_token k (tok_data t) (ps_builder s)) s).
 
-(* p_skip_ignored: while let Some(TkComment | TkWhitespace | TkComma) = self.peek() { pending.push(Ignored(self.pop())) }
-   As structural recursion on the remaining items: `p_skip_loop` is the loop from a state whose
-   current_token is None (p_peek pulls; an ignored token is popped again at once). *)
+(* skip_ignored: while let Some(Comment | Whitespace | Comma) = self.peek() { pending.push(Ignored(self.pop())) }
+   As structural recursion on the remaining items: `skip_loop` is the loop from a state whose
+   current_token is None (peek pulls; an ignored token is popped again at once). *)
 Fixpoint p_skip_loop (items : list item) (s : pstate) : pstate :=
   match items with
   | [] => ps_set_items [] s
@@ -196,7 +196,7 @@ Definition p_skip_ignored : PM unit :=
            | None => POk (tt, p_skip_loop (ps_items s) s)
            end.
 
-(* p_push_ignored: flush `pending` into the p_current p_node *)
+(* push_ignored: flush `pending` into the current node *)
 Fixpoint p_push_pending_list (l : list ppend) (b : pbuilder) : poutcome pbuilder :=
   match l with
   | [] => POk b
@@ -217,7 +217,7 @@ Definition p_push_ignored : PM unit :=
            | POutOfFuel => POutOfFuel
            end.
 
-(* p_eat *)
+(* eat *)
 Definition p_eat (k : skind) : PM unit :=
   p_push_ignored ;;
   c <- p_current ;;
@@ -226,16 +226,16 @@ Definition p_eat (k : skind) : PM unit :=
   | Some _ => t <- p_pop ;; p_push_token k t
   end.
 
-(* p_bump *)
+(* bump *)
 Definition p_bump (k : skind) : PM unit := p_eat k ;; p_skip_ignored.
 
-(* p_push_err *)
+(* push_err *)
 Definition p_push_err (e : perror) : PM unit :=
   p_modify (fun s => if ps_accept s then ps_set_errors (e :: ps_errors s) s else s).
 
 Definition p_syntax_error_at (t : ptoken) : perror := {| pe_class := PcSyntax; pe_index := tok_index t |}.
 
-(* p_limit_err *)
+(* limit_err *)
 Definition p_limit_err : PM unit :=
   c <- p_current ;;
   match c with
@@ -245,10 +245,10 @@ Definition p_limit_err : PM unit :=
       p_modify (ps_set_accept false)
   end.
 
-(* p_err_at_token *)
+(* err_at_token *)
 Definition p_err_at_token (t : ptoken) : PM unit := p_push_err (p_syntax_error_at t).
 
-(* p_err *)
+(* err *)
 Definition p_err : PM unit :=
   c <- p_current ;;
   match c with
@@ -256,7 +256,7 @@ Definition p_err : PM unit :=
   | Some t => p_push_err (p_syntax_error_at t)
   end.
 
-(* p_err_and_pop *)
+(* err_and_pop *)
 Definition p_err_and_pop : PM unit :=
   p_push_ignored ;;
   c <- p_current ;;
@@ -269,7 +269,7 @@ Definition p_err_and_pop : PM unit :=
       p_skip_ignored
   end.
 
-(* p_expect *)
+(* expect *)
 Definition p_expect (token : tkind) (kind : skind) : PM unit :=
   c <- p_current ;;
   match c with
@@ -279,7 +279,7 @@ Definition p_expect (token : tkind) (kind : skind) : PM unit :=
       if a then p_bump kind else p_push_err (p_syntax_error_at t)
   end.
 
-(* p_start_node: the NodeGuard it returns is modelled by `p_node` below *)
+(* start_node: the NodeGuard it returns is modelled by `node` below *)
 Definition p_start_node (k : skind) : PM unit :=
   p_push_ignored ;;
   p_modify (fun s => ps_set_builder (pb_start_node k (ps_builder s)) s) ;;
@@ -292,11 +292,11 @@ Definition p_finish_node : PM unit := p_lift_b pb_finish_node.
 Definition p_node {A} (k : skind) (body : PM A) : PM A :=
   p_start_node k ;; r <- body ;; p_finish_node ;; p_ret r.
 
-(* p_checkpoint_node *)
+(* checkpoint_node *)
 Definition p_checkpoint_node : PM nat :=
   p_push_ignored ;; s <- p_get ;; p_ret (pb_checkpoint (ps_builder s)).
 
-(* Checkpoint::p_wrap_node (the guard: p_finish_node at scope exit) *)
+(* Checkpoint::wrap_node (the guard: finish_node at scope exit) *)
 Definition p_wrap_node (cp : nat) (k : skind) : PM unit := p_lift_b (pb_start_node_at cp k).
 
 (* recursion_limit.check_and_increment() / decrement() *)
@@ -325,7 +325,7 @@ Definition p_rec_guard {A B} (on_reached : PM B) (body : PM A) (k : A -> PM B) :
 Definition p_debug_assert_advanced (before : option ptoken) : PM unit :=
   fun s => if ps_dbg s && poptoken_eqb before (ps_cur s) then PPanic PnDebugAssert else POk (tt, s).
 
-(* p_peek_while, with the closure's captured mutable g_variable as an accumulator `acc`.
+(* peek_while, with the closure's captured mutable variable as an accumulator `acc`.
    run returns (acc', continue?) : true = ControlFlow::Continue, false = Break. *)
 Fixpoint p_peek_while_acc {Acc} (fuel : nat) (run : Acc -> tkind -> PM (Acc * bool)) (acc : Acc) : PM Acc :=
   match fuel with
@@ -346,7 +346,7 @@ Fixpoint p_peek_while_acc {Acc} (fuel : nat) (run : Acc -> tkind -> PM (Acc * bo
 Definition p_peek_while (fuel : nat) (run : tkind -> PM bool) : PM unit :=
   p_peek_while_acc fuel (fun _ k => c <- run k ;; p_ret (tt, c)) tt ;; p_ret tt.
 
-(* p_peek_while_kind *)
+(* peek_while_kind *)
 Fixpoint p_peek_while_kind_acc {Acc} (fuel : nat) (expect_ : tkind) (run : Acc -> PM Acc) (acc : Acc) : PM Acc :=
   match fuel with
   | O => p_out_of_fuel
@@ -367,8 +367,8 @@ Fixpoint p_peek_while_kind_acc {Acc} (fuel : nat) (expect_ : tkind) (run : Acc -
 Definition p_peek_while_kind (fuel : nat) (expect_ : tkind) (run : PM unit) : PM unit :=
   p_peek_while_kind_acc fuel expect_ (fun _ => run) tt.
 
-(* p_trailing_tokens_are_errors: p_skip_ignored(); while !matches!(p_peek(), None | Some(TkEof)) { p_err_and_pop(msg) };
-   p_push_ignored() *)
+(* trailing_tokens_are_errors: skip_ignored(); while !matches!(peek(), None | Some(Eof)) { err_and_pop(msg) };
+   push_ignored() *)
 Fixpoint p_trailing_loop (fuel : nat) : PM unit :=
   match fuel with
   | O => p_out_of_fuel
@@ -382,10 +382,10 @@ Fixpoint p_trailing_loop (fuel : nat) : PM unit :=
 Definition p_trailing_tokens_are_errors (fuel : nat) : PM unit :=
   p_skip_ignored ;; p_trailing_loop fuel ;; p_push_ignored.
 
-(* GHOST: record that token t was popped and will never reach the pbuilder *)
+(* GHOST: record that token t was popped and will never reach the builder *)
 Definition p_ghost_dropped (t : ptoken) : PM unit := p_modify (fun s => ps_set_dropped (t :: ps_dropped s) s).
 
-(* p_parse_separated_list *)
+(* parse_separated_list *)
 Definition p_parse_separated_list (fuel : nat) (separator : tkind) (separator_syntax : skind) (run : PM unit)
   : PM unit :=
   o <- p_peek ;;
